@@ -65,8 +65,9 @@ RowMajor(g) ==
 ObstacleSeq(g) == SelectSeq(RowMajor(g), LAMBDA p : Cell(g, p).t = "MovingObstacle")
 FreeNeighbours(g, p) ==
   {q \in ManhattanBoundary(p, 1) : InGrid(g, q) /\ IsFloor(Cell(g, q))}
+\* (a position of the order that holds no obstacle when its turn comes - e.g. a box that was not opened - is skipped)
 MoveOne(g, p) ==
-  IF FreeNeighbours(g, p) = {} THEN {g}
+  IF Cell(g, p).t # "MovingObstacle" \/ FreeNeighbours(g, p) = {} THEN {g}
   ELSE {Swap(g, p, q) : q \in FreeNeighbours(g, p)}
 RECURSIVE ObstacleFold(_, _, _)
 ObstacleFold(grids, ps, k) ==
@@ -257,6 +258,12 @@ DoorRule(F, st, a, st2) ==
 
 \* C11 stochastic dynamics --------------------------------------------------
 Obstacles(g) == {p \in GPositions(g) : Cell(g, p).t = "MovingObstacle"}
+\* positions that can hold an obstacle when move_obstacles runs inside a chain: the obstacles of the state and the
+\* box in front that ACTUATE opens, if it holds one (actuate_box may come before move_obstacles in the chain)
+ObstacleSources(st, a) ==
+  Obstacles(st.grid) \cup
+    (IF a = "ACTUATE" /\ InGrid(st.grid, Front(st)) /\ Cell(st.grid, Front(st)).t = "Box"
+          /\ Cell(st.grid, Front(st)).in[1].t = "MovingObstacle" THEN {Front(st)} ELSE {})
 \* every permutation of a set as a sequence (small sets only)
 Perms(S) == {f \in [1..Cardinality(S) -> S] : \A i, j \in 1..Cardinality(S) : i # j => f[i] # f[j]}
 \* "each obstacle, at its turn, moves to a floor 4-neighbour or, if none, stays":
